@@ -1567,6 +1567,14 @@ class ColangParser:
         # Add a new branch for the then part
         if_element = self.ifs[-1]["element"]
         if_element["else"] = []
+
+        # The else body has its own indentation, which can differ from the one of the then body
+        if (
+            self.next_line
+            and self.next_line["indentation"] > self.current_indentation
+        ):
+            self.ifs[-1]["indentation"] = self.next_line["indentation"]
+
         self.branches.append(
             {
                 "elements": self.ifs[-1]["element"]["else"],
